@@ -117,6 +117,82 @@ def freshness(node, truthv, func, defs, ctxinfo):
     return "other:op"
 
 
+def freshness_obligations(ctx, rep, eff, C, lc, rule="R10a"):
+    """The cache of directory handler class C is deserialised only while it is younger than the configured lifetime.
+    -> (load call sites, walker that inlines the loader's helpers), or (None, None) when no load was found."""
+    prog = ctx.prog
+    rep.analysed(lc.qualname)
+    # the lifetime attribute must come from the cachetime option
+    ct_ok = False
+    for c in prog.mro(C):
+        for m in c.methods.values():
+            for n in ast.walk(m.node):
+                if isinstance(n, ast.Assign) and any(norm(t) == "self.cachetime" for t in n.targets):
+                    v = n.value
+                    ct_ok = isinstance(v, ast.Call) and isinstance(v.func, ast.Attribute) and v.func.attr in ("getint", "getfloat") \
+                        and len(v.args) == 2 and isinstance(v.args[1], ast.Constant) and v.args[1].value == "cachetime"
+                    if not ct_ok:
+                        break
+    info = {"cachetime_ok": ct_ok}
+    from ..structure import helper_calls
+
+    LOADERS = ("pickle.load", "pickle.loads", "marshal.load")
+    loads = [c for c, t in eff.calls_of(lc, C) if t.kind == "ext" and t.ext in LOADERS]
+    # helpers of the handler that loadcache delegates to (freshness predicate, file reader) are walked with it
+    lc_helpers = [g for g, _, _, _ in helper_calls(prog, ctx.resolver, lc, C, depth=2) if g.cls is not None and prog.is_subclass(C, g.cls)]
+    # ... or to a small cache-file module / class of the handlers package
+    work_, seen_ = [lc] + list(lc_helpers), set()
+    while work_:
+        g_ = work_.pop()
+        if g_ in seen_:
+            continue
+        seen_.add(g_)
+        for c_, t_ in eff.calls_of(g_, C if g_.cls is not None and prog.is_subclass(C, g_.cls) else g_.cls):
+            if t_.kind in ("repo", "ctor") and len(t_.funcs) == 1 and t_.funcs[0] is not None and len(seen_) < 12:
+                f2 = t_.funcs[0]
+                if f2.module.name.startswith("pygopherd.handlers") and f2.name not in ("getfspath", "open", "stat", "__init__") \
+                        and (f2.cls is None or not prog.is_subclass(f2.cls, ctx.cls("handlers.base.VFS_Real") or f2.cls) or f2.cls is C):
+                    if f2 not in lc_helpers and f2 is not lc:
+                        lc_helpers.append(f2)
+                    work_.append(f2)
+    for g in lc_helpers:
+        loads.extend(c for c, t in eff.calls_of(g, C) if t.kind == "ext" and t.ext in LOADERS)
+    if not loads:
+        rep.fail(rule, f"{lc.qualname}: load site", ctx.where(lc), "no deserialisation found in loadcache")
+        return None, None
+    w = Walker(prog, ctx.resolver, fork_returns=True, inline=lambda fn, t, d: d < 3 and fn in lc_helpers, inline_by_name=True)
+    problems = set()
+    n_paths = 0
+    for p in w.run(lc, C):
+        if not any(e.kind == "call" and e.node in loads for e in p.events):
+            continue
+        n_paths += 1
+        verdicts = []
+        for e in p.events:
+            if e.kind == "call" and e.node in loads:
+                break
+            if e.kind == "test" and e.extra is not None:
+                v = freshness(e.node, bool(e.extra), (e.frame[0] if e.frame and e.frame[0] is not None else lc), e.defs or {}, info)
+                if v:
+                    verdicts.append(v)
+        if "fresh" in verdicts:
+            continue
+        if "weak" in verdicts:
+            problems.add("the comparison is not strict: an entry exactly as old as its lifetime is still used (with lifetime 0 a cache written in the same second is served)")
+        elif any(v.startswith("other") for v in verdicts):
+            problems.add("the freshness test does not compare time.time() - mtime(cache file) with the cachetime option: " + ", ".join(v for v in verdicts if v.startswith("other")))
+        elif "stale" in verdicts:
+            problems.add("the cache is loaded when it is stale (test inverted)")
+        else:
+            problems.add("the cache can be loaded without any freshness test")
+    if not ct_ok:
+        problems.add("self.cachetime is not read from the cachetime option")
+    rep.add(rule, f"{lc.qualname}: freshness guard", not problems, ctx.where(lc), "; ".join(sorted(problems)) or f"{n_paths} load paths",
+            key=f"{rule}|{lc.qualname}|" + ";".join(sorted(problems)))
+
+    return loads, w
+
+
 def check(ctx, rep):
     prog = ctx.prog
     eff = Effects(prog, ctx.resolver)
@@ -139,74 +215,9 @@ def check(ctx, rep):
             continue
         if lc.cls is not C and C is not dirbase:
             continue
-        rep.analysed(lc.qualname)
-        # the lifetime attribute must come from the cachetime option
-        ct_ok = False
-        for c in prog.mro(C):
-            for m in c.methods.values():
-                for n in ast.walk(m.node):
-                    if isinstance(n, ast.Assign) and any(norm(t) == "self.cachetime" for t in n.targets):
-                        v = n.value
-                        ct_ok = isinstance(v, ast.Call) and isinstance(v.func, ast.Attribute) and v.func.attr in ("getint", "getfloat") \
-                            and len(v.args) == 2 and isinstance(v.args[1], ast.Constant) and v.args[1].value == "cachetime"
-                        if not ct_ok:
-                            break
-        info = {"cachetime_ok": ct_ok}
-        from ..structure import helper_calls
-
-        LOADERS = ("pickle.load", "pickle.loads", "marshal.load")
-        loads = [c for c, t in eff.calls_of(lc, C) if t.kind == "ext" and t.ext in LOADERS]
-        # helpers of the handler that loadcache delegates to (freshness predicate, file reader) are walked with it
-        lc_helpers = [g for g, _, _, _ in helper_calls(prog, ctx.resolver, lc, C, depth=2) if g.cls is not None and prog.is_subclass(C, g.cls)]
-        # ... or to a small cache-file module / class of the handlers package
-        work_, seen_ = [lc] + list(lc_helpers), set()
-        while work_:
-            g_ = work_.pop()
-            if g_ in seen_:
-                continue
-            seen_.add(g_)
-            for c_, t_ in eff.calls_of(g_, C if g_.cls is not None and prog.is_subclass(C, g_.cls) else g_.cls):
-                if t_.kind in ("repo", "ctor") and len(t_.funcs) == 1 and t_.funcs[0] is not None and len(seen_) < 12:
-                    f2 = t_.funcs[0]
-                    if f2.module.name.startswith("pygopherd.handlers") and f2.name not in ("getfspath", "open", "stat", "__init__") \
-                            and (f2.cls is None or not prog.is_subclass(f2.cls, ctx.cls("handlers.base.VFS_Real") or f2.cls) or f2.cls is C):
-                        if f2 not in lc_helpers and f2 is not lc:
-                            lc_helpers.append(f2)
-                        work_.append(f2)
-        for g in lc_helpers:
-            loads.extend(c for c, t in eff.calls_of(g, C) if t.kind == "ext" and t.ext in LOADERS)
-        if not loads:
-            rep.fail("R10a", f"{lc.qualname}: load site", ctx.where(lc), "no deserialisation found in loadcache")
+        loads, w = freshness_obligations(ctx, rep, eff, C, lc, "R10a")
+        if loads is None:
             continue
-        w = Walker(prog, ctx.resolver, fork_returns=True, inline=lambda fn, t, d: d < 3 and fn in lc_helpers, inline_by_name=True)
-        problems = set()
-        n_paths = 0
-        for p in w.run(lc, C):
-            if not any(e.kind == "call" and e.node in loads for e in p.events):
-                continue
-            n_paths += 1
-            verdicts = []
-            for e in p.events:
-                if e.kind == "call" and e.node in loads:
-                    break
-                if e.kind == "test" and e.extra is not None:
-                    v = freshness(e.node, bool(e.extra), (e.frame[0] if e.frame and e.frame[0] is not None else lc), e.defs or {}, info)
-                    if v:
-                        verdicts.append(v)
-            if "fresh" in verdicts:
-                continue
-            if "weak" in verdicts:
-                problems.add("the comparison is not strict: an entry exactly as old as its lifetime is still used (with lifetime 0 a cache written in the same second is served)")
-            elif any(v.startswith("other") for v in verdicts):
-                problems.add("the freshness test does not compare time.time() - mtime(cache file) with the cachetime option: " + ", ".join(v for v in verdicts if v.startswith("other")))
-            elif "stale" in verdicts:
-                problems.add("the cache is loaded when it is stale (test inverted)")
-            else:
-                problems.add("the cache can be loaded without any freshness test")
-        if not ct_ok:
-            problems.add("self.cachetime is not read from the cachetime option")
-        rep.add("R10a", f"{lc.qualname}: freshness guard", not problems, ctx.where(lc), "; ".join(sorted(problems)) or f"{n_paths} load paths",
-                key=f"R10a|{lc.qualname}|" + ";".join(sorted(problems)))
 
         # -------------------------------------------------------------- R10b
         problems = set()
